@@ -119,6 +119,9 @@ def runChk (s : St) (ws : List String) : String :=
     else
       let x := getC s a; let y := getC s b
       s!"{head} clause=c judge={verdict (judgeCc x y) "reexec-captures-differ"} corr=- n1={x.length} n2={y.length}"
+  | ["cl", a, b, k] =>
+    let x := getM s a; let y := getM s b
+    s!"{head} clause=c judge={verdict (judgeDm x y false) "reused-cursor-ignores-lower-limit"} corr=- n1={x.length} n2={y.length} limit={k}"
   | ["d", u, l, ex, k, kind] =>
     if kind == "m" then
       let x := getM s u; let y := getM s l
